@@ -221,8 +221,12 @@ func (m *Model) applyOp(op ops.Operator, n *onnx.NodeProto, tensors Tensors) err
 func (m *Model) validateShapes(inputTensors Tensors) error {
 	for name, shapeExpected := range m.InputShapes() {
 		// If the input is a parameter, the user does not have to provide a tensor for it.
+		// A tensor that is provided nevertheless takes the place of the parameter, hence
+		// it has to match the declared shape like any other input.
 		if _, ok := m.parameters[name]; ok {
-			continue
+			if _, provided := inputTensors[name]; !provided {
+				continue
+			}
 		}
 
 		tensor, ok := inputTensors[name]
